@@ -1,5 +1,5 @@
 """C15 — ASCII BASIC conversion round-trips listings line for line"""
-from framework import CaseResult, text_points, points_text
+from framework import scale, CaseResult, text_points, points_text
 from props.basiccommon import run_lst2bas, run_bas2lst, split_listing_lines
 
 GEN_FILES = ["GenBasic"]
@@ -42,7 +42,7 @@ def gen_ascii_file(rng):
 
 
 def gen_cases(rng, tier):
-    n = 300 if tier == "quick" else 6000
+    n = scale(tier, 300, 6000)
     cases = []
     for _ in range(n):
         cases.append({"kind": "lst", "text": gen_listing(rng), "dos": rng.random() < 0.5})
